@@ -83,7 +83,7 @@ func c07Line(c *Ctx, r *Report) {
 			// p hands the bytes on (or consumes them) without accounting
 			if len(callers[p]) == 0 || !returnsByte(p) {
 				n++
-				r.check("C07.LINE", fmt.Sprintf("%s: bytes of the document (through %s) pass the newline accounting", fnName(p), g.Name()), ci.Pos(), false,
+				r.flag("C07.LINE", fmt.Sprintf("%s: bytes of the document (through %s) pass the newline accounting", fnName(p), g.Name()), ci.Pos(),
 					"reads the document through "+g.Name()+", which does not count lines, and does not count them either: a newline consumed here leaves parser.line behind, every later position is reported on an earlier line")
 				seen[p] = true
 				continue
@@ -148,7 +148,33 @@ func c07SubNil(c *Ctx, r *Report, a *Anchors) {
 			continue
 		}
 		n++
-		shallow := !isMaxDepth(depth)
+		// the depth may be chosen before the call (1 for a subscription, MaxResolveDepth otherwise): the call is
+		// shallow under the tests that select a shallow value
+		dLeaves, _ := phiLeaves(depth)
+		var shallowUnder [][]guard
+		for _, dl := range dLeaves {
+			if isMaxDepth(dl.val) {
+				continue
+			}
+			if dl.pred != nil {
+				shallowUnder = append(shallowUnder, edgeGuards(dl.pred, dl.phi.Block()))
+			} else {
+				shallowUnder = append(shallowUnder, blockGuards(ci.Block()))
+			}
+		}
+		shallow := len(shallowUnder) > 0
+		contradicts := func(a, b []guard) bool {
+			for _, x := range a {
+				x = normGuard(x)
+				for _, y := range b {
+					y = normGuard(y)
+					if (x.cond == y.cond || sameCond(x.cond, y.cond)) && x.val != y.val {
+						return true
+					}
+				}
+			}
+			return false
+		}
 		bad := token.NoPos
 		if shallow {
 			for _, rt := range returnsOf(fn) {
@@ -158,7 +184,19 @@ func c07SubNil(c *Ctx, r *Report, a *Anchors) {
 				leaves, _ := phiLeaves(rt.Results[0])
 				for _, lf := range leaves {
 					if sameVal(stripIface(lf.val), resMap) || lf.val == resMap {
-						bad = rt.Pos()
+						// the map reaches this return under its own tests: a leak only if they can hold together
+						// with the tests of a shallow call
+						var under []guard
+						if lf.pred != nil {
+							under = edgeGuards(lf.pred, lf.phi.Block())
+						} else {
+							under = blockGuards(rt.Block())
+						}
+						for _, su := range shallowUnder {
+							if !contradicts(su, under) {
+								bad = rt.Pos()
+							}
+						}
 					}
 				}
 			}
